@@ -43,7 +43,7 @@ Definition mult_closed_gen (st : rstate) (ba : list (option Z)) (rcf : recipes_t
      s_attributes := s_attributes st; s_base_anchor := base |}.
 
 Lemma close_mult_gen P ms ds after K st ba rc anchor n0 a0 o0 es :
-  Forall inner P -> digits_ok ds = true -> stopk K ->
+  Forall inner P -> digits_ok ds = true -> endk K ->
   s_branch_anchor st = ba ++ [anchor] -> s_recipes st = rc ++ [(anchor, (n0, a0, o0) :: es)] ->
   length rc = length ba -> rec_get anchor rc = None ->
   let entry := (n0, a0, match ms with Some s => Some (sym_ord s) | None => o0 end) :: es in
@@ -53,7 +53,6 @@ Lemma close_mult_gen P ms ds after K st ba rc anchor n0 a0 o0 es :
      Ok (mult_closed_gen st ba (rc ++ [(anchor, entry)]) g cur prev base after, Datatypes.S (length P))).
 Proof.
   intros HP Hd HK Hba Hrc Hlen Habs entry. destruct (digits_ok_all ds Hd) as [Hall Hne].
-  destruct (after_tail_head_k after K HK) as (h & tl & ET & Hh).
   unfold close_branch. rewrite Hba, rev_app_distr. cbn [rev app]. rewrite rev_involutive. change (fnc_from ?r ?c 0) with (fnc0 r c).
   rewrite fnc0_spec, (find_idx_inner _ fnc_eon_a HP incl_eon_a). cbn [find_idx].
   change (str_in [")"%char] fnc_eon_a) with true. cbv iota. rewrite Nat.add_0_r. cbn [bind].
@@ -61,14 +60,19 @@ Proof.
   set (D := digits_str ds) in *. set (T := after_tail after K) in *.
   assert (HlenD : length D = length ds) by (unfold D, digits_str; apply map_length).
   assert (Hfi : find_idx ("|"%char :: D ++ T) fnc_eon_b = Datatypes.S (length ds)).
-  { cbn [find_idx]. change (str_in ["|"%char] fnc_eon_b) with false. cbv iota. f_equal. apply find_idx_digits_b; [assumption|]. eauto. }
+  { cbn [find_idx]. change (str_in ["|"%char] fnc_eon_b) with false. cbv iota. f_equal.
+    destruct HK as [->|HK].
+    - unfold T, after_tail. destruct after as [s0|]; cbn [osym_str app].
+      + apply find_idx_digits_b; [assumption|]. eexists _, _. split; [reflexivity|apply sym_in_eon_b].
+      + now apply find_idx_digits_end.
+    - apply find_idx_digits_b; [assumption|]. destruct (after_tail_head_k after K HK) as (h & tl & ET & Hh). eauto. }
   assert (Hcb : forall pbo, (match nth_error T 0 with
                              | Some cb => if sto_mem cb then o <- symbol_to_order_lookup [cb] ;; Ok (Some o) else Ok pbo
                              | None => Ok pbo end)
                             = Ok (match after with Some s => Some (sym_ord s) | None => pbo end)).
   { intros pbo. unfold T, after_tail. destruct after as [s|]; cbn [osym_str app nth_error].
     - now rewrite sym_mem, sym_lookup.
-    - destruct (stopk_head_b K HK) as (h' & tl' & -> & _ & Hm). cbn [nth_error]. now rewrite Hm. }
+    - destruct HK as [->|HK]; [reflexivity|]. destruct (stopk_head_b K HK) as (h' & tl' & -> & _ & Hm). cbn [nth_error]. now rewrite Hm. }
   assert (HN : Z.to_nat (Z.of_nat (digits_nat ds) - 1) = (digits_nat ds - 1)%nat) by lia.
   unfold entry. destruct ms as [s|]; cbn [osym_str app nth_error].
   - assert (E1 : Ascii.eqb (sym_char s) "|"%char = false) by (destruct s; reflexivity).
@@ -107,7 +111,7 @@ Qed.
 
 (** the closing loop of a multiplied branch, the rounds behind the multiplier left open *)
 Lemma close_all_mult_gen_k P ms ds after K st ba rc anchor n0 a0 o0 es :
-  Forall inner P -> digits_ok ds = true -> stopk K ->
+  Forall inner P -> digits_ok ds = true -> endk K ->
   s_branch_anchor st = ba ++ [anchor] -> s_recipes st = rc ++ [(anchor, (n0, a0, o0) :: es)] ->
   length rc = length ba -> rec_get anchor rc = None ->
   let entry := (n0, a0, match ms with Some s => Some (sym_ord s) | None => o0 end) :: es in
@@ -133,7 +137,7 @@ Lemma close_all_mult_gen P ms ds after K st ba rc anchor n0 a0 o0 es :
      Ok (mult_closed_gen st ba (rc ++ [(anchor, entry)]) g cur prev base after)).
 Proof.
   intros HP Hd HK Hba Hrc Hlen Habs entry. rewrite close_all_first by assumption.
-  rewrite (close_mult_gen P ms ds after K st ba rc anchor n0 a0 o0 es HP Hd (cont_stopper K HK) Hba Hrc Hlen Habs). cbv zeta. fold entry.
+  rewrite (close_mult_gen P ms ds after K st ba rc anchor n0 a0 o0 es HP Hd (or_intror (cont_stopper K HK)) Hba Hrc Hlen Habs). cbv zeta. fold entry.
   destruct (exp_times _ _ _ _ _ _) as [[[[g cur] pn] base]|]; cbn [bind]; [|reflexivity].
   destruct base as [b|]; cbn [of_option bind]; [|reflexivity].
   apply close_loop_stop_after. now apply mult_tail_no_close.
@@ -187,7 +191,7 @@ Lemma node_step_mult_gen_k fo st pc nm m ms ds after K ba rc ak n0 a0 o0 es p pe
   opened st pc = Ok (true, ba ++ [Some ak], rc ++ [(Some ak, (n0, a0, o0) :: es)]) ->
   length rc = length ba -> rec_get (Some ak) rc = None ->
   s_prev_node st = Some p -> s_pbo st = Some pend ->
-  name_ok fo nm = true -> sn_ok m None -> digits_ok ds = true -> stopk K ->
+  name_ok fo nm = true -> sn_ok m None -> digits_ok ds = true -> endk K ->
   node_step fo st pc nm (stail m None ++ ")"%char :: osym_str ms ++ "|"%char :: digits_str ds ++ after_tail after K)
   = (a <- parse_graph_base_node fo nm ;;
      let '(g2, nx, pv) := m_copies (mult_val m) a (s_g st) (s_current st) (Some p) pend in
@@ -232,7 +236,7 @@ Section UnitBodyGen.
   Hypothesis Hna : name_ok fo (u_name u) = true.
   Hypothesis Hbo : body_ok fo (oord (u_bond u)) (u_body u) = true.
   Hypothesis Hd : digits_ok (u_count u) = true.
-  Hypothesis HK : cont kt.
+  Hypothesis HK : contz kt.
   Hypothesis Hcs : closes_ok cs = true.
   Hypothesis Haft : cs <> [] -> u_after u = None.
   Hypothesis Hlcs : (length cs <= length stk)%nat.
@@ -258,8 +262,10 @@ Section UnitBodyGen.
     end.
   Proof.
     set (K := closes_str cs ++ kt).
-    assert (HKs : stopk K).
-    { unfold K. destruct cs as [|c0 r0]; cbn [closes_str flat_map app]; [now apply cont_stopper|apply close_stopper]. }
+    assert (HKs : endk K).
+    { unfold K. destruct cs as [|c0 r0]; cbn [closes_str flat_map app].
+      - destruct HK as [->|HK']; [now left|right; now apply cont_stopper].
+      - right. apply close_stopper. }
     induction body as [|b body IH]; intros first st x pre pc f es0 Hne HR Hfirst Hpc Hpre Hok Hlast Hlink; [contradiction|].
     cbn [body_ok] in Hok. apply andb_prop in Hok as [Hok Hokr]. apply andb_prop in Hok as [Hnm Hsn].
     pose proof (sn_okb_ok _ _ Hsn) as Hs.
@@ -328,7 +334,7 @@ Section UnitBodyGen.
       { unfold Q0, Q1, K, after_tail. repeat (rewrite <- app_assoc; cbn [app]). reflexivity. }
       assert (Epos : Datatypes.S (length (stail (bn_mult b) None)) = length Q0) by (unfold Q0; rewrite app_length; cbn [length]; lia).
       cbv zeta. rewrite Etext, Epos.
-      destruct (closes_sim fo cs (length (Q0 ++ Q1 ++ closes_str cs ++ kt)) Q0 Q1 kt stU xU HQ1 (or_intror HK) Hcs HRU)
+      destruct (closes_sim fo cs (length (Q0 ++ Q1 ++ closes_str cs ++ kt)) Q0 Q1 kt stU xU HQ1 HK Hcs HRU)
         as (x1 & st1 & Em1 & El1 & HR1 & _ & _ & _ & Estk1 & Hnil1 & Hrec1 & _).
       { unfold stU, unit_done_gen. cbn [s_attributes]. discriminate. }
       { unfold stU, xU, unit_done_gen. cbn [s_pbo m_pend]. now destruct (u_after u). }
